@@ -90,6 +90,16 @@ PROBES = [
      'int pick(int c) { if (c > 2) stop(c); return c ? c + 1 : (stop(0), 0); }\n'
      'int main(void)\n{\n\tvisit(3);\n\tout_l(name_len());\n\tout_l(wides(5));\n\tout_l(aligned(7));\n\tout_l(pick(1));\n\tout_l(pick(2));\n\treturn 0;\n}\n'
      'void stop(int c) { out_l(-c); for (;;) { } }\n'),
+    ('switch-controlling-value', 'the controlling expression of a switch is promoted as a VALUE (narrow results of =, +=, ++, casts are extended first); a switch with only a default label runs it',
+     'void out_l(long);\nint pick(int x)\n{\n\tsigned char c;\n\tunsigned char uc = 255;\n\tshort s = 32767;\n\tint r = 0;\n'
+     '\tswitch (c = x) { case 1: r += 1; break; case -1: r += 2; break; case 257: r += 4; break; default: r += 8; }\n'
+     '\tswitch (++uc) { case 0: r += 16; break; case 256: r += 32; break; default: r += 64; }\n'
+     '\tswitch (s += 1) { case -32768: r += 128; break; case 32768: r += 256; break; default: r += 512; }\n'
+     '\tswitch ((signed char)x) { case 1: r += 1024; break; case 257: r += 2048; break; default: r += 4096; }\n'
+     '\tswitch ((unsigned char)(x + 255)) { case 0: r += 8192; break; case 512: r += 16384; break; default: r += 32768; }\n\treturn r;\n}\n'
+     'int onlydefault(int x)\n{\n\tint r = 1;\n\tswitch (x) { default: r = 2; }\n\tswitch (x) { { default: r += 10; } }\n\tswitch (x) { case 1: switch (x) { default: r += 100; } break; case 2: r += 1000; break; }\n'
+     '\tswitch (x) { }\n\tswitch (x) while (x > 5) { default: r += 5; break; }\n\treturn r;\n}\n'
+     'int main(void)\n{\n\tout_l(pick(257));\n\tout_l(pick(-1));\n\tout_l(pick(1));\n\tout_l(pick(513));\n\tout_l(onlydefault(1));\n\tout_l(onlydefault(2));\n\tout_l(onlydefault(7));\n\treturn 0;\n}\n'),
     (K_COPY_PACKED, 'assignment of a packed struct with an _Alignas member (size 5, alignment 4) copies 8 bytes: access beyond both objects',
      'void out_l(long);\nstruct __attribute__((packed)) P { _Alignas(4) int a; char b; };\nstruct P g1 = { 7, 8 }, g2;\n'
      'int main(void)\n{\n\tstruct P *p = &g2, *q = &g1;\n\t*p = *q;\n\tout_l(g2.a);\n\tout_l(g2.b);\n\treturn 0;\n}\n'),
